@@ -1,4 +1,5 @@
 import LitexModel.Wishbone.Interconnect
+import LitexModel.Soc.Bus
 /-
   `SoCBusHandler.do_finalize` (litex/soc/integration/soc.py), Wishbone standard: which fabric is instantiated
   for the registered masters/slaves, and the resulting bus as one machine.
@@ -115,4 +116,108 @@ def shape : SocState → Topology
 def WF (s : SocState) : Prop := shape s = c.topology
 
 end SocBus
+/-! ### The address-map glue in front of `do_finalize`: `check_regions_overlap` and whole build histories
+
+  `SoCBusHandler.add_region` runs `check_regions_overlap(self.regions)` after every insertion and `alloc_region`
+  runs it on every candidate; whatever passes is handed to `InterconnectShared`/`Crossbar` as one
+  `SoCRegion.decoder` per slave.  The region record, `size_pow2`, the single pair test and the handler state are
+  C13's model (`LitexModel/Soc/Region.lean`, `Bus.lean`, imported read-only); what is added here is the function
+  as the code computes it (first reported pair, `check_linker` flag) and the bus that results from a history.
+
+      def check_regions_overlap(self, regions, check_linker=False):
+          i = 0
+          while i < len(regions):
+              n0 = list(regions.keys())[i]; r0 = regions[n0]
+              for n1 in list(regions.keys())[i+1:]:
+                  r1 = regions[n1]
+                  if r0.linker or r1.linker:
+                      if not check_linker: continue
+                  if r0.origin >= (r1.origin + r1.size_pow2): continue
+                  if r1.origin >= (r0.origin + r0.size_pow2): continue
+                  return (n0, n1)
+              i += 1
+          return None
+-/
+open Litex.Soc
+
+/-- Body of the inner loop for one pair: `true` iff `(n0, n1)` is returned.  Both comparisons are on
+    `size_pow2` (the decoded window), not on the declared `size`. -/
+def ovPair (checkLinker : Bool) (r0 r1 : Region) : Bool :=
+  if (r0.linker || r1.linker) && !checkLinker then false
+  else if r0.origin ≥ r1.origin + r1.p2 then false
+  else if r1.origin ≥ r0.origin + r0.p2 then false
+  else true
+
+/-- Inner `for n1 in keys[i+1:]` loop: position (counted from `k`) of the first region reported against `r0`. -/
+def findOverlapWith (checkLinker : Bool) (r0 : Region) : List Region → Nat → Option Nat
+  | [], _ => none
+  | r1 :: rs, k => if ovPair checkLinker r0 r1 then some k else findOverlapWith checkLinker r0 rs (k + 1)
+
+/-- Outer `while i < len(regions)` loop from position `i`. -/
+def firstOverlapFrom (checkLinker : Bool) : Nat → List Region → Option (Nat × Nat)
+  | _, [] => none
+  | i, r0 :: rs =>
+    match findOverlapWith checkLinker r0 rs (i + 1) with
+    | some k => some (i, k)
+    | none => firstOverlapFrom checkLinker (i + 1) rs
+
+/-- `check_regions_overlap(regions, check_linker)`: positions (insertion order) of the first reported pair. -/
+def checkRegionsOverlap (checkLinker : Bool) (l : List Region) : Option (Nat × Nat) :=
+  firstOverlapFrom checkLinker 0 l
+
+/-- One call of a build script against a `SoCBusHandler` (names are generated from the position in the script,
+    so they never collide; name handling is C13's subject). -/
+inductive GlueOp where
+  | master                                        -- `add_master("m<k>", Interface(...))`
+  | slave  (origin : Option Nat) (size : Nat) (cached linker : Bool)   -- `add_slave("s<k>", iface, SoCRegion(...))`
+  | region (origin : Option Nat) (size : Nat) (cached linker : Bool)   -- `add_region("r<k>", SoCRegion(...))`
+  | io     (origin size : Nat)                    -- `add_region("io<k>", SoCIORegion(origin, size, cached=False))`
+deriving Repr, DecidableEq
+
+/-- The C13 operation a script line stands for (`k` = its position = its name). -/
+def GlueOp.toBusOp (k : Nat) : GlueOp → BusOp Nat
+  | .master => .addMaster (some k)
+  | .slave o sz c l => .addSlave (some k) (some { origin := o, size := sz, cached := c, linker := l })
+  | .region o sz c l => .addRegion k { origin := o, size := sz, cached := c, linker := l }
+  | .io o sz => .addRegion k { io := true, origin := some o, size := sz, cached := false }
+
+/-- Run a script; the first rejected call raises `SoCError` and aborts the build: `Sum.inl k` = position of the
+    rejected call, `Sum.inr s` = the handler after all calls. -/
+def glueRun (s : BusH Nat) (k : Nat) : List GlueOp → Sum Nat (BusH Nat)
+  | [] => .inr s
+  | op :: ops =>
+    match s.apply (op.toBusOp k) with
+    | .ok s' => glueRun s' (k + 1) ops
+    | .error _ => .inl k
+
+/-- The bus `do_finalize` builds for a finished handler (wishbone standard, every port already in the bus's own
+    width/addressing): one decoder per slave from the slave's region, in `self.slaves` order. -/
+def socOfBus (s : BusH Nat) (kind : BusKind) (reg : Bool) (timeout : Option Nat) : SocCfg :=
+  { n := s.masters.length, regions := s.slaveRegions.map fun p => (p.2.origin, p.2.size),
+    kind, reg, timeout, dw := s.dw, aw := s.aw }
+
+/-- Outcome of a whole build: rejected at call `k`, rejected by `do_finalize`, or the bus. -/
+inductive GlueResult where
+  | rejected (k : Nat)
+  | finRejected
+  | built (c : SocCfg)
+
+/-- The slave regions handed to the interconnect (`none` when the build was rejected). -/
+def GlueResult.regions? : GlueResult → Option (List (Nat × Nat))
+  | .built c => some c.regions
+  | _ => none
+
+/-- Position of the call that raised `SoCError` (`none`: every call was accepted). -/
+def GlueResult.rejectedAt? : GlueResult → Option Nat
+  | .rejected k => some k
+  | _ => none
+
+def glueBuild (dw aw : Nat) (kind : BusKind) (reg : Bool) (timeout : Option Nat) (ops : List GlueOp) : GlueResult :=
+  match glueRun { aw := aw, dw := dw } 0 ops with
+  | .inl k => .rejected k
+  | .inr s =>
+    match s.finalize with
+    | .error _ => .finRejected
+    | .ok _ => .built (socOfBus s kind reg timeout)
+
 end Litex.Wishbone
